@@ -627,8 +627,9 @@ def _zero_count_edges(F, body, du):
             if src is None or not Q.callee_is(src, READ):
                 return False
             return lab[1] is (org['rv']['op'] == 'Eq')
+        # `Ok(0) =>` on the result of the read, `0 =>` on the value of `read(..).await?`
         return lab == ('int', 0) and org['k'] == 'place' and \
-            any(isinstance(e, dict) and e.get('v') == 'Ok' for e in (org['pl'].get('p') or [])) and _from_read(body, du, org['pl'])
+            any(isinstance(e, dict) and e.get('v') in ('Ok', 'Continue') for e in (org['pl'].get('p') or [])) and _from_read(body, du, org['pl'])
     return {(b, tgt) for b, tgt, lab, org in _switch_edges(F, body, du, pred)}
 
 
@@ -663,6 +664,16 @@ def _newline_edges(F, body, du, byte_local):
     return out
 
 
+def _same_file_private(F, body):
+    """accept-predicate for F.inlined: non-public synchronous functions defined in the source file of `body`
+    (same_module_private does not see the module of a trait-impl method path `<Type as Trait>::method`)."""
+    def accept(callee):
+        sig = F.fns.get(callee)
+        cb = F.bodies.get(callee)
+        return sig is not None and sig.get('vis') != 'pub' and cb is not None and cb.file == body.file
+    return accept
+
+
 def _describe_edge(F, body, du, u, v):
     ec = Q.edge_condition(F, body, du, u)
     if ec is None:
@@ -688,7 +699,8 @@ def r7(cx):
     cx.require(FDR in readers, 'FdReader2::next_line is not among the Input::next_line implementations that call Read::read')
     cx.floor(len(readers), 1, 'Input::next_line implementations that read a descriptor')
     for root in readers:
-        body = F.inlined(F.main_body(root))      # a decoding / byte-reading step extracted into a private helper is seen in place
+        # a decoding / byte-testing step extracted into a private helper of the same source file is seen in place
+        body = F.inlined(F.main_body(root), accept=_same_file_private(F, F.main_body(root)))
         cx.fn(body.fn)
         du = Q.DefUse(body)
         reads = Q.find_calls(body, READ)
@@ -696,7 +708,8 @@ def r7(cx):
         # where the line is produced: UTF-8 conversions (also inside closures built here) and Ok(..) results
         decode = [(b, t, pp.callee(t)) for b, t in body.calls() if Q.callee_is(t, [UTF8_DECODE])]
         inner = {x.fn: [pp.callee(t) for _, t in x.calls() if Q.callee_is(t, [UTF8_DECODE])]
-                 for x in F.logical(root) if x.fn not in (body.fn, root)}
+                 for r in [root] + [F.bodies[f].root for f in getattr(body, 'inlined_from', [])]
+                 for x in F.logical(r) if x.fn not in (body.fn, root)}
         for b, j, s in body.stmts():
             if s['k'] == 'assign' and s['rv']['k'] == 'agg' and s['rv'].get('ak') == 'closure' and inner.get(s['rv'].get('def')):
                 decode.append((b, s, 'closure calling ' + inner[s['rv']['def']][0]))
